@@ -11,7 +11,8 @@
 
    part "immutable": one trace per object (a Name, an instance of every rdata class,
    and every object reachable from their fields): for every slot an attempt to rebind
-   and to delete it.  ValueObject has no action for a successful mutation. *)
+   and to delete it; and one trace per (rdata class, constructor parameter) for records
+   built through the public constructor from mutable containers (TCtor).  ValueObject has no action for a successful mutation. *)
 EXTENDS ValueObject, VTrace
 
 VARIABLES t, l
@@ -75,9 +76,19 @@ TMapping ==
     /\ Check(t, l, "FieldUnchanged", e.unchanged)
     /\ Adv
 
+(* a record built through the public constructor from arguments held in mutable containers
+   (bytearray, list, dict): every stored field is of an immutable kind, and changing the
+   containers afterwards changes nothing observable.  A constructor may refuse them. *)
+TCtor ==
+    /\ e.op = "ctor"
+    /\ Look
+    /\ Check(t, l, "ImmutableKind", e.built = "err" \/ ToSetOf(e.kinds) \subseteq ImmutableKinds)
+    /\ Check(t, l, "ArgumentNotAliased", e.built = "err" \/ e.same)
+    /\ Adv
+
 TraceNext ==
     /\ l <= Len(Ev(t))
-    /\ TCmp \/ TSlot \/ TMapping
+    /\ TCmp \/ TSlot \/ TMapping \/ TCtor
 
 Accepted == Accepting(t, l)
 =============================================================================
